@@ -880,12 +880,12 @@ def rule_codec(prog):
     out.add("LSCodec::decode", "length is read from the `Content-Length` header", "Content-Length" in lits, c.loc(dec["sp"]), "string literals: %s" % lits)
     # header field names are case-insensitive (the base protocol's header part follows HTTP semantics)
     exact = None
-    for bn in hir.nodes_deep(prog, dec["body"], 1, crate=c):
+    for bn in hir.nodes_deep(prog, dec["body"], 3, crate=c):
         if bn.get("k") == "Binary" and bn["op"] in ("==", "!=") and any(
                 y.get("k") == "Lit" and y["lit"].get("k") == "str" and str(y["lit"].get("v")).lower() == "content-length" for y in hir.nodes(bn)):
             exact = bn
     insens = any(x.get("k") == "MethodCall" and x["m"] in ("eq_ignore_ascii_case", "to_ascii_lowercase", "to_lowercase", "to_ascii_uppercase")
-                 for x in hir.nodes_deep(prog, dec["body"], 1, crate=c))
+                 for x in hir.nodes_deep(prog, dec["body"], 3, crate=c))
     out.add("LSCodec::decode", "the Content-Length header is recognised in any case", insens and exact is None, c.loc((exact or dec)["sp"]),
             "the header name is compared with `==`: `content-length: 52` is rejected as invalid headers, the session ends with status 1 and the "
             "request is never answered", ("hdrcase",))
